@@ -1,5 +1,812 @@
-//! driver stub (VERIF_CMD=provision)
+//! C16 driver (VERIF_CMD=provision): schedules over the provisioning actor messages, executed on the real code.
+//!
+//! Every task is a real call -- `provision::redirector_ready`, `provision::key_latched`,
+//! `provision::key_latch_ready_state_reset`, `provision::provision_timeup`, `ProxyServer::start()` (which binds,
+//! calls `provision::listener_started` and then serves), and `GET /provision` over a real TCP connection to that
+//! server -- spawned on a multi-thread runtime and parked at the H5 gates of `ProvisionSharedState`
+//! (`verif::sched::point`, one gate per client call).  A step of a schedule releases exactly one parked task through
+//! exactly one actor message and waits until that task is parked again (or finished); then the abstract state is
+//! projected through the public getters (`get_state`, `get_provision_finished`), `status.tag` is read, and one
+//! ndjson line is emitted.
+//!
+//! Gates are per label and hand out FIFO tickets.  To release parked tasks in an order different from their
+//! arrival order the driver re-arms a gate before every expected arrival and advances its arrival counter with
+//! single polls of `point()` (dropped immediately), so that the arriving task receives the ticket of its position in
+//! the *release* order; `release_to(label, n)` then lets exactly the tickets <= n through.
+//!
+//! Script (VERIF_SCRIPT): {"port": 3080, "runs": [ {"id":..,"mode":"replay","steps":[{t,i,a,x,q?,..}..]} |
+//!   {"id":..,"mode":"auto","seed":..,"kk":["U","R","T"..],"rd":1,"queries":["past",..],"ticks":n,"latch":n} ]}
+//! Output (VERIF_OUT): ndjson Run / Tick / Step / TagObs / Desync / RunEnd / Done.
+use super::env;
+use crate::provision;
+use crate::proxy::proxy_server::ProxyServer;
+use crate::shared_state::agent_status_wrapper::AgentStatusModule;
+use crate::shared_state::SharedState;
+use crate::verif;
+use proxy_agent_shared::misc_helpers;
+use serde_json::{json, Value};
+use std::collections::HashMap;
+use std::future::Future;
+use std::io::{Read, Write};
+use std::sync::atomic::{AtomicBool, Ordering};
+use std::sync::{Arc, Mutex};
+use std::task::{Context, Wake, Waker};
+use std::time::{Duration, Instant};
+
+const L_UPD: &str = "provision.update_one_state";
+const L_RESET: &str = "provision.reset_one_state";
+const L_GET: &str = "provision.get_state";
+const L_SETFIN: &str = "provision.set_provision_finished";
+const L_GETFIN: &str = "provision.get_provision_finished";
+const LABELS: [&str; 5] = [L_UPD, L_RESET, L_GET, L_SETFIN, L_GETFIN];
+
+const MSG_R: &str = "rd-not-ready";
+const MSG_K: &str = "kk-not-ready";
+const MSG_L: &str = "ls-not-ready";
+
+fn label_of(action: &str) -> Option<&'static str> {
+    match action {
+        "upd" => Some(L_UPD),
+        "reset" => Some(L_RESET),
+        "tstate" | "wstate" | "qstate" => Some(L_GET),
+        "setfin" => Some(L_SETFIN),
+        "qfin" => Some(L_GETFIN),
+        _ => None,
+    }
+}
+
+fn is_start(action: &str) -> bool {
+    matches!(action, "upd" | "reset" | "tstate" | "qfin")
+}
+
+struct Noop;
+impl Wake for Noop {
+    fn wake(self: Arc<Self>) {}
+}
+
+struct Gates {
+    rel: HashMap<&'static str, usize>,
+    rt: tokio::runtime::Handle,
+}
+
+impl Gates {
+    fn arm(&mut self, label: &'static str, skip: usize) {
+        verif::sched::arm(label, skip);
+        self.rel.insert(label, 0);
+    }
+    /// advance the arrival counter of `label` by n (each poll of `point` takes one ticket; the future is dropped)
+    fn bump(&self, label: &'static str, n: usize) {
+        let _g = self.rt.enter();
+        let waker = Waker::from(Arc::new(Noop));
+        let mut cx = Context::from_waker(&waker);
+        for _ in 0..n {
+            let mut fut = Box::pin(verif::sched::point(label));
+            let _ = fut.as_mut().poll(&mut cx);
+        }
+    }
+    /// the next task arriving at `label` will hold `ticket`
+    fn prepare(&mut self, label: &'static str, ticket: usize) {
+        self.arm(label, 0);
+        self.bump(label, ticket - 1);
+    }
+    fn release_to(&mut self, label: &'static str, ticket: usize) {
+        let r = self.rel.entry(label).or_insert(0);
+        while *r < ticket {
+            verif::sched::release(label);
+            *r += 1;
+        }
+    }
+    fn snapshot(&self) -> [usize; 5] {
+        let mut s = [0usize; 5];
+        for (i, l) in LABELS.iter().enumerate() {
+            s[i] = verif::sched::arrived(l);
+        }
+        s
+    }
+}
+
+type ClientResult = Arc<Mutex<Option<Result<(u16, String), String>>>>;
+
+struct TaskSt {
+    handle: Option<tokio::task::JoinHandle<()>>,
+    client: Option<ClientResult>,
+    parked: Option<(&'static str, usize)>,
+    op: String,     // U R T Q
+    stage: usize,   // gated messages performed in the current composite
+    serving: bool,  // ls only
+    q: String,      // the tick a query named
+    qkind: String,
+}
+
+impl TaskSt {
+    fn new() -> Self {
+        TaskSt { handle: None, client: None, parked: None, op: "-".into(), stage: 0, serving: false, q: String::new(), qkind: String::new() }
+    }
+}
+
+#[derive(Debug, Clone, PartialEq)]
+enum Outcome {
+    Gate(&'static str, usize),
+    Done,
+    Timeout,
+}
+
+fn now_nanos() -> i128 {
+    misc_helpers::get_date_time_unix_nano()
+}
+
+fn http_provision(port: u16, tick: Option<&str>, metadata: bool, read_timeout: Duration) -> Result<(u16, String), String> {
+    let addr: std::net::SocketAddr = format!("127.0.0.1:{}", port).parse().unwrap();
+    let mut s = std::net::TcpStream::connect_timeout(&addr, Duration::from_millis(500)).map_err(|e| format!("connect: {}", e))?;
+    let _ = s.set_read_timeout(Some(read_timeout));
+    let mut req = String::from("GET /provision HTTP/1.1\r\nHost: 127.0.0.1\r\nConnection: close\r\n");
+    if metadata {
+        req.push_str("Metadata: true\r\n");
+    }
+    if let Some(t) = tick {
+        req.push_str(&format!("x-ms-azure-time_tick: {}\r\n", t));
+    }
+    req.push_str("\r\n");
+    s.write_all(req.as_bytes()).map_err(|e| format!("write: {}", e))?;
+    let mut buf = Vec::new();
+    let mut chunk = [0u8; 4096];
+    loop {
+        match s.read(&mut chunk) {
+            Ok(0) => break,
+            Ok(n) => buf.extend_from_slice(&chunk[..n]),
+            Err(e) => return Err(format!("read: {}", e)),
+        }
+    }
+    let text = String::from_utf8_lossy(&buf).to_string();
+    let status = text.split_whitespace().nth(1).and_then(|x| x.parse::<u16>().ok()).ok_or_else(|| format!("bad response: {:?}", &text[..text.len().min(80)]))?;
+    let body = match text.find("\r\n\r\n") {
+        Some(p) => text[p + 4..].to_string(),
+        None => String::new(),
+    };
+    Ok((status, body))
+}
+
+struct Run {
+    rt: tokio::runtime::Handle,
+    shared: SharedState,
+    gates: Gates,
+    port: u16,
+    id: Value,
+    tasks: HashMap<String, TaskSt>,
+    ticks: Vec<i128>,      // ticks[v-1] = real instant at which the abstract clock became v
+    latch: bool,
+    keys_dir: std::path::PathBuf,
+    k: usize,
+    last_fin: i128,
+    last_flags: u8,
+}
+
+impl Run {
+    fn tag_path(&self) -> std::path::PathBuf {
+        self.keys_dir.join("status.tag")
+    }
+
+    fn read_tag(&self) -> Value {
+        match std::fs::read(self.tag_path()) {
+            Ok(b) => json!(String::from_utf8_lossy(&b).to_string()),
+            Err(_) => Value::Null,
+        }
+    }
+
+    fn project(&mut self) -> (u8, i128) {
+        let p = self.shared.get_provision_shared_state();
+        self.gates.arm(L_GET, 1);
+        let p1 = p.clone();
+        let flags = self.rt.block_on(async move { p1.get_state().await }).map(|f| f.bits()).unwrap_or(255);
+        self.gates.arm(L_GETFIN, 1);
+        let fin = self.rt.block_on(async move { p.get_provision_finished().await }).unwrap_or(-1);
+        self.last_fin = fin;
+        self.last_flags = flags;
+        (flags, fin)
+    }
+
+    fn spawn_composite(&mut self, name: &str, action: &str) {
+        let sh = self.shared.clone();
+        let ct = sh.get_cancellation_token();
+        let kk = sh.get_key_keeper_shared_state();
+        let tel = sh.get_telemetry_shared_state();
+        let pv = sh.get_provision_shared_state();
+        let ag = sh.get_agent_status_shared_state();
+        let port = self.port;
+        let h = match (name, action) {
+            ("rd", "upd") => self.rt.spawn(async move { provision::redirector_ready(ct, kk, tel, pv, ag).await }),
+            ("kk", "upd") => self.rt.spawn(async move { provision::key_latched(ct, kk, tel, pv, ag).await }),
+            ("kk", "reset") => self.rt.spawn(async move { provision::key_latch_ready_state_reset(pv).await }),
+            ("kk", "tstate") => self.rt.spawn(async move { provision::provision_timeup(None, pv, ag).await }),
+            ("ls", "upd") => {
+                let server = ProxyServer::new(port, &sh);
+                self.rt.spawn(async move { server.start().await })
+            }
+            _ => panic!("harness: cannot start {} {}", name, action),
+        };
+        let t = self.tasks.entry(name.to_string()).or_insert_with(TaskSt::new);
+        t.handle = Some(h);
+        t.client = None;
+        t.stage = 0;
+        t.op = match action {
+            "upd" => "U",
+            "reset" => "R",
+            _ => "T",
+        }
+        .to_string();
+    }
+
+    fn spawn_query(&mut self, name: &str, kind: &str, q: String) {
+        let res: ClientResult = Arc::new(Mutex::new(None));
+        let r2 = res.clone();
+        let port = self.port;
+        let q2 = q.clone();
+        let with_tick = kind != "nohdr";
+        std::thread::spawn(move || {
+            let r = http_provision(port, if with_tick { Some(q2.as_str()) } else { None }, true, Duration::from_secs(20));
+            *r2.lock().unwrap() = Some(r);
+        });
+        let t = self.tasks.entry(name.to_string()).or_insert_with(TaskSt::new);
+        t.handle = None;
+        t.client = Some(res);
+        t.stage = 0;
+        t.op = "Q".into();
+        t.q = q;
+        t.qkind = kind.to_string();
+    }
+
+    fn task_finished(&mut self, name: &str, probe: bool) -> bool {
+        let port = self.port;
+        let t = self.tasks.get_mut(name).unwrap();
+        if let Some(c) = &t.client {
+            return c.lock().unwrap().is_some();
+        }
+        if name == "ls" {
+            if t.serving {
+                return true;
+            }
+            if probe {
+                if let Ok((400, _)) = http_provision(port, None, false, Duration::from_millis(40)) {
+                    t.serving = true;
+                    return true;
+                }
+            }
+            return false;
+        }
+        t.handle.as_ref().map(|h| h.is_finished()).unwrap_or(true)
+    }
+
+    /// wait until the task `name` arrives at a gate or finishes
+    fn wait_outcome(&mut self, name: &str, snap: [usize; 5], expect_done: bool, timeout: Duration) -> Outcome {
+        let t0 = Instant::now();
+        let mut spins = 0u32;
+        loop {
+            let now = self.gates.snapshot();
+            for i in 0..5 {
+                if now[i] > snap[i] {
+                    return Outcome::Gate(LABELS[i], now[i]);
+                }
+            }
+            let probe = name == "ls" && (expect_done || t0.elapsed() > Duration::from_millis(300)) && spins % 20 == 0;
+            if self.task_finished(name, probe) {
+                // an arrival and a completion exclude each other for one task; look once more for a late arrival
+                let now = self.gates.snapshot();
+                for i in 0..5 {
+                    if now[i] > snap[i] {
+                        return Outcome::Gate(LABELS[i], now[i]);
+                    }
+                }
+                return Outcome::Done;
+            }
+            if t0.elapsed() > timeout {
+                return Outcome::Timeout;
+            }
+            spins += 1;
+            std::thread::sleep(Duration::from_micros(100));
+        }
+    }
+
+    fn emit_step(&mut self, t: &str, i: u64, a: &str, x: &str, out: &Outcome, extra: Value, do_project: bool) {
+        let (flags, fin) = if do_project { self.project() } else { (self.last_flags, self.last_fin) };
+        let mut ev = json!({"e": "Step", "run": self.id, "k": self.k, "t": t, "i": i, "a": a, "x": x,
+            "flags": flags, "fin": fin.to_string(), "now": now_nanos().to_string(), "tag": self.read_tag(),
+            "latch": self.latch,
+            "out": match out { Outcome::Gate(l, _) => json!(l), Outcome::Done => json!("done"), Outcome::Timeout => json!("timeout") }});
+        if let (Some(o), Some(e)) = (ev.as_object_mut(), extra.as_object()) {
+            for (k, v) in e {
+                o.insert(k.clone(), v.clone());
+            }
+        }
+        verif::trace::emit(ev);
+        self.k += 1;
+    }
+
+    fn tick(&mut self) {
+        std::thread::sleep(Duration::from_micros(600));
+        let t = now_nanos();
+        self.ticks.push(t);
+        std::thread::sleep(Duration::from_micros(600));
+        verif::trace::emit(json!({"e": "Tick", "run": self.id, "k": self.k, "clock": self.ticks.len(), "T": t.to_string()}));
+        self.k += 1;
+    }
+
+    fn set_latch(&mut self, on: bool) {
+        let kk = self.shared.get_key_keeper_shared_state();
+        let state = if on { crate::key_keeper::MUST_SIG_WIRESERVER } else { crate::key_keeper::DISABLE_STATE }.to_string();
+        let _ = self.rt.block_on(async move { kk.update_current_secure_channel_state(state).await });
+        self.latch = on;
+        let out = Outcome::Done;
+        self.emit_step("env", 0, "latch", if on { "on" } else { "off" }, &out, json!({}), true);
+    }
+
+    fn query_tick(&self, kind: &str, q_abs: Option<u64>) -> String {
+        match kind {
+            "zero" => "0".to_string(),
+            "future" => (now_nanos() + 3_600_000_000_000i128).to_string(),
+            "exact" => self.last_fin.to_string(),
+            "neg" => "-5".to_string(),
+            "nohdr" => "0".to_string(),
+            _ => {
+                let j = q_abs.unwrap_or(self.ticks.len() as u64).max(1) as usize;
+                self.ticks[j.min(self.ticks.len()) - 1].to_string()
+            }
+        }
+    }
+
+    fn desync(&mut self, why: String) {
+        verif::trace::emit(json!({"e": "Desync", "run": self.id, "k": self.k, "why": why}));
+    }
+
+    /// one gated message of task `name`: (spawn and) release, wait, record
+    #[allow(clippy::too_many_arguments)]
+    fn gated_step(&mut self, name: &str, i: u64, a: &str, x: &str, q_abs: Option<u64>, ticket: usize,
+                  prep: &[(&'static str, usize)], expect: Option<Outcome>, nowait: bool) -> Result<Outcome, String> {
+        let label = label_of(a).unwrap();
+        let mut extra = json!({});
+        if is_start(a) {
+            self.gates.prepare(label, ticket);
+            let snap = self.gates.snapshot();
+            if a == "qfin" {
+                let q = self.query_tick(x, q_abs);
+                extra = json!({"q": q, "qkind": x});
+                self.spawn_query(name, x, q);
+            } else {
+                self.spawn_composite(name, a);
+            }
+            match self.wait_outcome(name, snap, false, Duration::from_secs(5)) {
+                Outcome::Gate(l, n) if l == label && n == ticket => {
+                    self.tasks.get_mut(name).unwrap().parked = Some((label, ticket));
+                }
+                o => return Err(format!("{} {}: did not reach its first gate {} (ticket {}): {:?}", name, a, label, ticket, o)),
+            }
+        }
+        let parked = self.tasks.get(name).and_then(|t| t.parked);
+        if parked != Some((label, ticket)) {
+            return Err(format!("{} {}: task is not parked at {} ticket {} but at {:?}", name, a, label, ticket, parked));
+        }
+        for (l, n) in prep {
+            self.gates.prepare(l, *n);
+        }
+        let snap = self.gates.snapshot();
+        self.gates.release_to(label, ticket);
+        {
+            let t = self.tasks.get_mut(name).unwrap();
+            t.parked = None;
+            t.stage += 1;
+        }
+        if nowait {
+            let out = Outcome::Timeout;
+            self.emit_step(name_base(name), i, a, x, &out, json!({"nowait": true}), false);
+            return Ok(out);
+        }
+        let expect_done = matches!(expect, Some(Outcome::Done));
+        let out = self.wait_outcome(name, snap, expect_done, Duration::from_secs(6));
+        if let Outcome::Gate(l, n) = out {
+            self.tasks.get_mut(name).unwrap().parked = Some((l, n));
+        }
+        if out == Outcome::Done && a == "qstate" {
+            let r = self.tasks.get(name).and_then(|t| t.client.clone()).and_then(|c| c.lock().unwrap().clone());
+            extra = match r {
+                Some(Ok((status, body))) => json!({"status": status, "body": body}),
+                Some(Err(e)) => json!({"status": 0, "body": "", "err": e}),
+                None => json!({}),
+            };
+            let t = self.tasks.get(name).unwrap();
+            extra["q"] = json!(t.q);
+            extra["qkind"] = json!(t.qkind);
+        }
+        self.emit_step(name_base(name), i, a, x, &out, extra, true);
+        if out == Outcome::Timeout {
+            return Err(format!("{} {}: neither parked nor finished within the time limit", name, a));
+        }
+        if let Some(e) = expect {
+            if e != out {
+                return Err(format!("{} {}: expected {:?}, got {:?}", name, a, e, out));
+            }
+        }
+        Ok(out)
+    }
+
+    fn finish(&mut self) {
+        for l in LABELS.iter() {
+            verif::sched::disarm(l);
+        }
+        let t0 = Instant::now();
+        let names: Vec<String> = self.tasks.keys().cloned().collect();
+        loop {
+            let mut all = true;
+            for n in names.iter() {
+                if n == "ls" {
+                    continue;
+                }
+                if !self.task_finished(n, false) {
+                    all = false;
+                }
+            }
+            if all || t0.elapsed() > Duration::from_secs(8) {
+                break;
+            }
+            std::thread::sleep(Duration::from_millis(1));
+        }
+        self.shared.cancel_cancellation_token();
+        std::thread::sleep(Duration::from_millis(15));
+        verif::trace::emit(json!({"e": "RunEnd", "run": self.id, "tag": self.read_tag()}));
+    }
+}
+
+fn name_base(name: &str) -> &str {
+    if name.starts_with('q') { "q" } else { name }
+}
+
+fn task_name(t: &str, i: u64) -> String {
+    if t == "q" { format!("q{}", i) } else { t.to_string() }
+}
+
+fn clean_dir(dir: &std::path::Path) {
+    for f in ["status.tag", "status.tag.tmp", "provisioned.tag"] {
+        let _ = std::fs::remove_file(dir.join(f));
+    }
+}
+
+fn new_run(rt: &tokio::runtime::Runtime, id: Value, port: u16) -> Run {
+    let keys_dir = crate::common::config::get_keys_dir();
+    let _ = std::fs::create_dir_all(&keys_dir);
+    clean_dir(&keys_dir);
+    let shared = rt.block_on(async { SharedState::start_all() });
+    let ag = shared.get_agent_status_shared_state();
+    rt.block_on(async {
+        let _ = ag.set_module_status_message(MSG_R.to_string(), AgentStatusModule::Redirector).await;
+        let _ = ag.set_module_status_message(MSG_K.to_string(), AgentStatusModule::KeyKeeper).await;
+        let _ = ag.set_module_status_message(MSG_L.to_string(), AgentStatusModule::ProxyServer).await;
+    });
+    let mut gates = Gates { rel: HashMap::new(), rt: rt.handle().clone() };
+    for l in LABELS.iter() {
+        gates.arm(l, 0);
+    }
+    let mut run = Run {
+        rt: rt.handle().clone(), shared, gates, port, id: id.clone(), tasks: HashMap::new(), ticks: Vec::new(), latch: false,
+        keys_dir, k: 0, last_fin: 0, last_flags: 0,
+    };
+    std::thread::sleep(Duration::from_micros(300));
+    let t1 = now_nanos();
+    run.ticks.push(t1);
+    std::thread::sleep(Duration::from_micros(300));
+    verif::trace::emit(json!({"e": "Run", "run": id, "T": t1.to_string(), "port": port}));
+    run
+}
+
+/// S->I: replay exactly the given steps
+fn run_replay(rt: &tokio::runtime::Runtime, spec: &Value, port: u16) {
+    let mut run = new_run(rt, spec["id"].clone(), port);
+    let steps = spec["steps"].as_array().cloned().unwrap_or_default();
+    // ticket of a gated step = its position among the steps of the schedule that pass the same gate
+    let mut tickets: Vec<usize> = Vec::with_capacity(steps.len());
+    let mut cnt: HashMap<&'static str, usize> = HashMap::new();
+    for s in steps.iter() {
+        match label_of(s["a"].as_str().unwrap_or("")) {
+            Some(l) => {
+                let c = cnt.entry(l).or_insert(0);
+                *c += 1;
+                tickets.push(*c);
+            }
+            None => tickets.push(0),
+        }
+    }
+    let key = |s: &Value| task_name(s["t"].as_str().unwrap_or(""), s["i"].as_u64().unwrap_or(0));
+    // tag observer (race phases)
+    let observing = Arc::new(AtomicBool::new(false));
+    let obs: Arc<Mutex<Vec<(i128, Option<String>, u64)>>> = Arc::new(Mutex::new(Vec::new()));
+    let mut observer: Option<std::thread::JoinHandle<()>> = None;
+    let mut race_t0: Option<Instant> = None;
+    let mut extra_ticket: HashMap<&'static str, usize> = HashMap::new();
+    for (k, s) in steps.iter().enumerate() {
+        let t = s["t"].as_str().unwrap_or("");
+        let i = s["i"].as_u64().unwrap_or(0);
+        let a = s["a"].as_str().unwrap_or("");
+        let x = s["x"].as_str().unwrap_or("-");
+        if s["observe"].as_bool().unwrap_or(false) && observer.is_none() {
+            observing.store(true, Ordering::SeqCst);
+            let flag = observing.clone();
+            let o2 = obs.clone();
+            let path = run.tag_path();
+            observer = Some(std::thread::spawn(move || {
+                use std::os::unix::fs::MetadataExt;
+                let mut last: Option<(Option<String>, u64)> = None;
+                while flag.load(Ordering::SeqCst) {
+                    // content and inode through one descriptor
+                    let cur = match std::fs::File::open(&path) {
+                        Ok(mut f) => {
+                            let ino = f.metadata().map(|m| m.ino()).unwrap_or(0);
+                            let mut b = Vec::new();
+                            let _ = f.read_to_end(&mut b);
+                            (Some(String::from_utf8_lossy(&b).to_string()), ino)
+                        }
+                        Err(_) => (None, 0),
+                    };
+                    if last.as_ref() != Some(&cur) {
+                        o2.lock().unwrap().push((now_nanos(), cur.0.clone(), cur.1));
+                        last = Some(cur);
+                    }
+                    std::thread::sleep(Duration::from_micros(150));
+                }
+            }));
+        }
+        if let Some(ms) = s["at_ms"].as_u64() {
+            // release this step `ms` after the first no-wait step
+            if let Some(t0) = race_t0 {
+                let due = t0 + Duration::from_millis(ms);
+                let now = Instant::now();
+                if due > now {
+                    std::thread::sleep(due - now);
+                }
+            }
+        }
+        match a {
+            "tick" => run.tick(),
+            "latch" => run.set_latch(x == "on"),
+            "qchan" => {
+                let out = Outcome::Done;
+                run.emit_step("q", i, a, x, &out, json!({}), false);
+            }
+            "wopen" | "wwrite" | "wrename" => {} // file system calls are not gated: they follow wstate
+            "sleep" => std::thread::sleep(Duration::from_millis(s["ms"].as_u64().unwrap_or(1))),
+            _ => {
+                let name = key(s);
+                let nowait = s["nowait"].as_bool().unwrap_or(false);
+                // where the specification says the task goes next (hist.pc / hist.q.pc); without it, look ahead
+                let next = steps[k + 1..].iter().position(|n| key(n) == name && (label_of(n["a"].as_str().unwrap_or("")).is_some() || n["a"] == "qchan")).map(|p| k + 1 + p);
+                let spec_pc = if t == "q" { s["q"]["pc"].as_str() } else { s["pc"].as_str() };
+                let next_label: Option<&'static str> = match spec_pc {
+                    Some("setfin") => Some(L_SETFIN),
+                    Some("wstate") | Some("qstate") => Some(L_GET),
+                    Some(_) => None,
+                    None => match next {
+                        Some(n) if !is_start(steps[n]["a"].as_str().unwrap_or("")) && steps[n]["a"] != "qchan" => label_of(steps[n]["a"].as_str().unwrap()),
+                        _ => None,
+                    },
+                };
+                let (prep, expect): (Vec<(&'static str, usize)>, Option<Outcome>) = match next_label {
+                    Some(l) => {
+                        // ticket = position of the task's next step among the passes of that gate; a task the schedule never
+                        // releases again gets a ticket behind all of them
+                        let tk = match next {
+                            Some(n) if label_of(steps[n]["a"].as_str().unwrap_or("")) == Some(l) && !is_start(steps[n]["a"].as_str().unwrap_or("")) => tickets[n],
+                            _ => {
+                                let e = extra_ticket.entry(l).or_insert(0);
+                                *e += 1;
+                                cnt.get(l).copied().unwrap_or(0) + *e
+                            }
+                        };
+                        (vec![(l, tk)], Some(Outcome::Gate(l, tk)))
+                    }
+                    None => (vec![], Some(Outcome::Done)),
+                };
+                let expect = if s["lenient"].as_bool().unwrap_or(false) { None } else { expect };
+                if nowait && race_t0.is_none() {
+                    race_t0 = Some(Instant::now());
+                }
+                if let Err(why) = run.gated_step(&name, i, a, x, s["q"]["q"].as_u64(), tickets[k], &prep, expect, nowait) {
+                    run.desync(why);
+                    break;
+                }
+            }
+        }
+    }
+    if let Some(ms) = spec["settle_ms"].as_u64() {
+        std::thread::sleep(Duration::from_millis(ms));
+    }
+    run.finish();
+    if let Some(h) = observer {
+        std::thread::sleep(Duration::from_millis(5));
+        observing.store(false, Ordering::SeqCst);
+        let _ = h.join();
+        let v: Vec<Value> = obs.lock().unwrap().iter().map(|(t, c, i)| json!({"at": t.to_string(), "tag": c, "ino": i})).collect();
+        verif::trace::emit(json!({"e": "TagObs", "run": run.id, "obs": v}));
+    }
+}
+
+struct Lcg(u64);
+impl Lcg {
+    fn next(&mut self, n: usize) -> usize {
+        self.0 = self.0.wrapping_mul(6364136223846793005).wrapping_add(1442695040888963407);
+        ((self.0 >> 33) as usize) % n.max(1)
+    }
+}
+
+/// I->S: the driver chooses at random among what the *implementation* offers (tasks parked at gates, composites
+/// that can start); tickets follow the arrival order, so within one gate the order is FIFO.
+fn run_auto(rt: &tokio::runtime::Runtime, spec: &Value, port: u16) {
+    let mut run = new_run(rt, spec["id"].clone(), port);
+    let mut rng = Lcg(spec["seed"].as_u64().unwrap_or(1).wrapping_mul(2654435761).wrapping_add(12345));
+    let mut kk_ops: Vec<String> = spec["kk"].as_array().map(|a| a.iter().map(|v| v.as_str().unwrap_or("U").to_string()).collect()).unwrap_or_default();
+    kk_ops.reverse();
+    let mut rd_left = spec["rd"].as_u64().unwrap_or(1);
+    let mut ls_started = false;
+    let mut queries: Vec<String> = spec["queries"].as_array().map(|a| a.iter().map(|v| v.as_str().unwrap_or("past").to_string()).collect()).unwrap_or_default();
+    queries.reverse();
+    let mut nq = 0u64;
+    let mut ticks_left = spec["ticks"].as_u64().unwrap_or(0);
+    let mut latch_left = spec["latch"].as_u64().unwrap_or(0);
+    // arrivals take tickets 16, 32, ...; a composite whose first gate already holds parked tasks overtakes them with
+    // the ticket just below the smallest parked one (it passes within its own step, so the number is free again)
+    const SPACING: usize = 16;
+    let mut next_ticket: HashMap<&'static str, usize> = LABELS.iter().map(|l| (*l, SPACING)).collect();
+    let mut guard = 0;
+    loop {
+        guard += 1;
+        if guard > 400 {
+            run.desync("auto: step limit".to_string());
+            break;
+        }
+        // what is enabled
+        let mut choices: Vec<(String, String)> = Vec::new(); // (task, action or "cont")
+        let idle = |run: &mut Run, n: &str| -> bool {
+            match run.tasks.get(n) {
+                None => true,
+                Some(t) => t.parked.is_none() && (t.handle.as_ref().map(|h| h.is_finished()).unwrap_or(true)),
+            }
+        };
+        if rd_left > 0 && idle(&mut run, "rd") {
+            choices.push(("rd".into(), "upd".into()));
+        }
+        if !ls_started {
+            choices.push(("ls".into(), "upd".into()));
+        }
+        if !kk_ops.is_empty() && idle(&mut run, "kk") {
+            let a = match kk_ops.last().unwrap().as_str() {
+                "U" => "upd",
+                "R" => "reset",
+                _ => "tstate",
+            };
+            choices.push(("kk".into(), a.into()));
+        }
+        let serving = run.tasks.get("ls").map(|t| t.serving).unwrap_or(false);
+        if serving && !queries.is_empty() {
+            choices.push((format!("q{}", nq + 1), "qfin".into()));
+        }
+        // head of every gate
+        for l in LABELS.iter() {
+            let mut head: Option<(String, usize)> = None;
+            for (n, t) in run.tasks.iter() {
+                if let Some((pl, tk)) = t.parked {
+                    if pl == *l && head.as_ref().map(|h| tk < h.1).unwrap_or(true) {
+                        head = Some((n.clone(), tk));
+                    }
+                }
+            }
+            if let Some((n, _)) = head {
+                choices.push((n, "cont".into()));
+            }
+        }
+        if ticks_left > 0 {
+            choices.push(("env".into(), "tick".into()));
+        }
+        if latch_left > 0 {
+            choices.push(("env".into(), "latch".into()));
+        }
+        let work_left = choices.iter().any(|c| c.0 != "env");
+        if !work_left {
+            break;
+        }
+        choices.sort();
+        let (name, act) = choices[rng.next(choices.len())].clone();
+        if name == "env" {
+            if act == "tick" {
+                ticks_left -= 1;
+                run.tick();
+            } else {
+                latch_left -= 1;
+                let on = !run.latch;
+                run.set_latch(on);
+            }
+            continue;
+        }
+        let (a, x, ticket, qabs): (String, String, usize, Option<u64>) = if act == "cont" {
+            let t = run.tasks.get(&name).unwrap();
+            let (l, tk) = t.parked.unwrap();
+            let a = match (l, t.op.as_str()) {
+                (L_SETFIN, _) => "setfin",
+                (L_GET, "Q") => "qstate",
+                (L_GET, _) => "wstate",
+                _ => "unknown",
+            };
+            (a.to_string(), if t.op == "Q" { "-".to_string() } else { t.op.clone() }, tk, None)
+        } else {
+            let l = label_of(&act).unwrap();
+            let min_parked = run.tasks.values().filter_map(|t| t.parked).filter(|p| p.0 == l).map(|p| p.1).min();
+            let tk = match min_parked {
+                Some(m) => m - 1,
+                None => {
+                    let t = next_ticket[l];
+                    *next_ticket.get_mut(l).unwrap() += SPACING;
+                    t
+                }
+            };
+            let mut x = "-".to_string();
+            let mut qabs = None;
+            match name.as_str() {
+                "rd" => { rd_left -= 1; x = "R".into(); }
+                "ls" => { ls_started = true; x = "L".into(); }
+                "kk" => { kk_ops.pop(); if act != "tstate" { x = "K".into(); } }
+                _ => {
+                    nq += 1;
+                    x = queries.pop().unwrap();
+                    if x == "past" {
+                        qabs = Some(1 + rng.next(run.ticks.len()) as u64);
+                    }
+                    if x == "exact" && run.last_fin == 0 {
+                        x = "past".into();
+                        qabs = Some(run.ticks.len() as u64);
+                    }
+                }
+            }
+            (act.clone(), x, tk, qabs)
+        };
+        if a == "unknown" {
+            run.desync(format!("auto: task {} parked at an unexpected gate", name));
+            break;
+        }
+        let i = if name.starts_with('q') { name[1..].parse::<u64>().unwrap_or(0) } else { 0 };
+        // arrivals anywhere get the next ticket of that gate (prepare() re-arms every gate)
+        let prep: Vec<(&'static str, usize)> = LABELS.iter().map(|l| (*l, next_ticket[l])).collect();
+        match run.gated_step(&name, i, &a, &x, qabs, ticket, &prep, None, false) {
+            Ok(out) => {
+                if let Outcome::Gate(l, _) = out {
+                    *next_ticket.get_mut(l).unwrap() += SPACING;
+                }
+                if a == "qstate" {
+                    let out = Outcome::Done;
+                    run.emit_step("q", i, "qchan", "-", &out, json!({}), false);
+                }
+            }
+            Err(why) => {
+                run.desync(why);
+                break;
+            }
+        }
+    }
+    run.finish();
+}
+
 pub fn main() -> i32 {
-    eprintln!("not built yet");
-    2
+    let script: Value = serde_json::from_str(&std::fs::read_to_string(env("VERIF_SCRIPT")).expect("script")).expect("script json");
+    verif::trace::set_file(&env("VERIF_OUT"));
+    let rt = tokio::runtime::Builder::new_multi_thread()
+        .worker_threads(script["workers"].as_u64().unwrap_or(6) as usize)
+        .enable_all()
+        .build()
+        .unwrap();
+    let base_port = script["port"].as_u64().unwrap_or(3080) as u16;
+    let runs = script["runs"].as_array().cloned().unwrap_or_default();
+    for (n, r) in runs.iter().enumerate() {
+        let port = base_port + (n % 20000) as u16;
+        match r["mode"].as_str().unwrap_or("replay") {
+            "auto" => run_auto(&rt, r, port),
+            _ => run_replay(&rt, r, port),
+        }
+    }
+    verif::trace::emit(json!({"e": "Done", "runs": runs.len()}));
+    verif::trace::flush();
+    rt.shutdown_timeout(Duration::from_millis(200));
+    0
 }
